@@ -15,7 +15,7 @@ import GoblVerif.Proofs.C14nEncoding
 import GoblVerif.Proofs.C14nDigits
 
 namespace GoblVerif.C14nSrc
-open GoblVerif GoblVerif.C14n GoblVerif.Generated GoblVerif.GoBytes GoblVerif.Proofs.C14n
+open GoblVerif GoblVerif.C14n GoblVerif.Generated GoblVerif.GoBytes GoblVerif.Proofs.C14n GoblVerif.Spec.C07
 
 /-- what is observable of a Go result `([]byte, error)`: the bytes when the error is nil -/
 def obs (p : Bytes × Err) : Option Bytes := if p.2.isSome then none else some p.1
@@ -348,5 +348,178 @@ theorem decodeRune_width_at (s : Bytes) (i : Int) (h0 : 0 ≤ i) (h : i < (s.len
   have := congrArg List.length hn
   simp at this
   omega
+
+
+/-! ## Float.MarshalJSON: the byte-slice surgery after strconv.AppendFloat -/
+
+theorem appendFloat_nil (t : Bytes) : appendFloat [] t 69 (-1) 64 = t := by
+  simp [appendFloat]
+
+theorem ins_a (t : Bytes) (h0 : t[0]! = 45) (h2 : t[2]! ≠ 46) :
+    List.take 2 t ++ ([46, 48] ++ List.drop 2 t) = insertPoint t := by
+  match t with
+  | [] => simp at h0
+  | [a] => simp at h0; subst h0; simp [insertPoint]
+  | [a, b] => simp at h0; subst h0; simp [insertPoint]
+  | a :: b :: c :: r =>
+    simp at h0 h2; subst h0
+    simp [insertPoint, h2]
+
+theorem ins_b (t : Bytes) (h0 : t[0]! = 45) (h2 : ¬ t[2]! ≠ 46) : t = insertPoint t := by
+  match t with
+  | [] => simp at h0
+  | [a] => simp at h2
+  | [a, b] => simp at h2
+  | a :: b :: c :: r =>
+    simp at h0 h2; subst h0; subst h2
+    simp [insertPoint]
+
+theorem ins_c (t : Bytes) (hne : t ≠ []) (h0 : ¬ t[0]! = 45) (h1 : t[1]! ≠ 46) :
+    List.take 1 t ++ ([46, 48] ++ List.drop 1 t) = insertPoint t := by
+  match t with
+  | [] => exact absurd rfl hne
+  | [a] => simp at h0; rw [insertPoint_pos a [] h0]; simp
+  | a :: b :: r =>
+    simp at h0 h1
+    rw [insertPoint_pos a (b :: r) h0]; simp [h1]
+
+theorem ins_d (t : Bytes) (h0 : ¬ t[0]! = 45) (h1 : ¬ t[1]! ≠ 46) : t = insertPoint t := by
+  match t with
+  | [] => simp at h1
+  | [a] => simp at h1
+  | a :: b :: r =>
+    simp at h0 h1; subst h1
+    rw [insertPoint_pos a (46 :: r) h0]; simp
+
+/-- `i := bytes.IndexByte(num, 'E')`, `num[:i+1]`, `num[i+1:]` are `splitAtE` -/
+theorem split_eq : ∀ l : Bytes, 69 ∈ l → ∃ k : Nat, indexByte l 69 = (k : Int) ∧ k < l.length ∧
+    List.take (k + 1) l = (splitAtE l).1 ∧ List.drop (k + 1) l = (splitAtE l).2
+  | [], h => by simp at h
+  | c :: cs, h => by
+    by_cases hc : c = 69
+    · subst hc; exact ⟨0, by simp [indexByte], by simp, by simp [splitAtE], by simp [splitAtE]⟩
+    · have hm : 69 ∈ cs := by
+        rcases List.mem_cons.mp h with h | h
+        · exact absurd h.symm hc
+        · exact h
+      obtain ⟨k, h1, h2, h3, h4⟩ := split_eq cs hm
+      refine ⟨k + 1, ?_, by simp; omega, ?_, ?_⟩
+      · simp only [indexByte, hc, if_false, h1]; rfl
+      · have : (c == 69) = false := by simp [hc]
+        simp [splitAtE, this, h3]
+      · have : (c == 69) = false := by simp [hc]
+        simp [splitAtE, this, h4]
+
+theorem copy_fresh (src : Bytes) : GoBytes.copy (List.replicate src.length 0) src = src := by
+  simp [GoBytes.copy]
+
+/-- one round of `for i, v := range exp` -/
+def scanStep (len : Nat) (it : Nat × Nat) (s : Int × Int) : ForInStep (Int × Int) :=
+  if it.1 = 45 ∨ it.1 = 43 then .yield (1, s.2)
+  else if it.1 = 48 ∧ ((it.2 : Nat) : Int) + 1 < ((len : Nat) : Int) then .yield (s.1, ((it.2 : Nat) : Int) + 1)
+  else .done (s.1, s.2)
+
+theorem scan_loop (len : Nat) (f : Nat × Nat → Int × Int → Id (ForInStep (Int × Int)))
+    (hf : ∀ it s, f it s = pure (scanStep len it s)) :
+    ∀ (l : Bytes) (n j k : Nat),
+      (forIn (m := Id) (l.zipIdx n) (((j : Nat) : Int), ((k : Nat) : Int)) f).run =
+        ((((scanExp l n len j k).1 : Nat) : Int), (((scanExp l n len j k).2 : Nat) : Int))
+  | [], n, j, k => by simp [scanExp, Id.run, GoSem.id_pure]
+  | v :: vs, n, j, k => by
+    simp only [List.zipIdx_cons, List.forIn_cons, hf, scanStep, scanExp, pure_bind]
+    by_cases h1 : v = 45 ∨ v = 43
+    · have h1' : (v == 45 || v == 43) = true := by simpa using h1
+      simp only [h1, h1', if_true]
+      exact scan_loop len f hf vs (n + 1) 1 k
+    · have h1' : (v == 45 || v == 43) = false := by simpa using h1
+      simp only [h1, h1', if_false, Bool.false_eq_true]
+      by_cases h2 : v = 48 ∧ ((n : Nat) : Int) + 1 < ((len : Nat) : Int)
+      · have h2' : (v == 48 && decide (n + 1 < len)) = true := by
+          simp only [Bool.and_eq_true, beq_iff_eq, decide_eq_true_eq]; exact ⟨h2.1, by omega⟩
+        have hlt : n + 1 < len := by omega
+        simp only [h2, and_self, if_true]
+        have := scan_loop len f hf vs (n + 1) j (n + 1)
+        simpa [hlt] using this
+      · have h2' : (v == 48 && decide (n + 1 < len)) = false := by
+          rw [Bool.eq_false_iff]; intro hh
+          simp only [Bool.and_eq_true, beq_iff_eq, decide_eq_true_eq] at hh
+          exact h2 ⟨hh.1, by omega⟩
+        simp only [h2, h2', if_false, Bool.false_eq_true, Id.run, GoSem.id_pure]
+
+
+/-- the exponent loop followed by whatever comes after it -/
+theorem float_tail (len : Nat) (f : Nat × Nat → Int × Int → Id (ForInStep (Int × Int)))
+    (hf : ∀ it s, f it s = pure (scanStep len it s)) (ex : Bytes) (k : Int × Int → Id (Bytes × Err)) :
+    (forIn (m := Id) ex.zipIdx ((0 : Int), (0 : Int)) f >>= k) =
+      k ((((scanExp ex 0 len 0 0).1 : Nat) : Int), (((scanExp ex 0 len 0 0).2 : Nat) : Int)) := by
+  have := scan_loop len f hf ex 0 0 0
+  simp only [Id.run] at this
+  simp only [bind]
+  rw [show ((0 : Int), (0 : Int)) = ((((0 : Nat) : Int)), (((0 : Nat) : Int))) from rfl, this]
+
+theorem head_plus (ex : Bytes) : (ex.head? == some 0x2B) = decide (ex[0]! = 43) := by
+  cases ex with
+  | nil => simp
+  | cons a r => by_cases h : a = 43 <;> simp [h]
+
+
+/-- closes `⟨rest of Float.MarshalJSON on num⟩ = ((splitAtE num).1 ++ expHacks (splitAtE num).2, none)`
+    given `hEn : 69 ∈ num` (the part of the body after the decimal point has been inserted) -/
+macro "float_rest" num:ident hEn:ident : tactic =>
+  `(tactic| (
+    obtain ⟨k, h1, hk, h3, h4⟩ := split_eq $num $hEn
+    have e1 : ((k : Int) + 1).toNat = k + 1 := by omega
+    have e2 : ((($num).length : Int) - (k : Int) - 1).toNat = (List.drop (k + 1) $num).length := by
+      simp only [List.length_drop]; omega
+    simp only [h1, e1, e2, copy_fresh, h3, h4]
+    generalize (splitAtE $num).2 = ex
+    generalize (splitAtE $num).1 = pre
+    unfold expHacks
+    simp only [head_plus]
+    split
+    · rename_i hp
+      simp only [hp, decide_true, if_true]
+      refine (float_tail _ _ (by intros; rfl) _ _).trans ?_
+      generalize scanExp _ _ _ _ _ = jk
+      obtain ⟨j, k'⟩ := jk
+      by_cases hk0 : k' = 0 <;> simp [hk0, GoSem.id_pure]
+    · rename_i hp
+      simp only [hp, decide_false, Bool.false_eq_true, if_false]
+      refine (float_tail _ _ (by intros; rfl) _ _).trans ?_
+      generalize scanExp _ _ _ _ _ = jk
+      obtain ⟨j, k'⟩ := jk
+      by_cases hk0 : k' = 0 <;> simp [hk0, GoSem.id_pure]))
+
+theorem mem_insert_point (t : Bytes) (d : Nat) (hE : 69 ∈ t) : 69 ∈ List.take d t ++ ([46, 48] ++ List.drop d t) := by
+  have := List.take_append_drop d t
+  rw [← this] at hE
+  simp only [List.mem_append] at hE ⊢
+  rcases hE with h | h
+  · exact Or.inl h
+  · exact Or.inr (Or.inr h)
+
+
+theorem fltText_ascii (n : Bool) (ds : List Nat) (e : Int) (hw : wfDigits ds = true) :
+    ∀ c ∈ fltText n ds e, c < 128 := by
+  cases ds with
+  | nil => simp [wfDigits] at hw
+  | cons d rest =>
+    obtain ⟨hd, hall, _⟩ := wfDigits_cons hw
+    intro c hc
+    unfold fltText at hc
+    simp only [List.mem_append, List.mem_cons, List.headD_cons, List.tail_cons] at hc
+    rcases hc with hc | hc | hc | hc | hc | hc
+    · cases n <;> simp at hc; omega
+    · omega
+    · omega
+    · unfold fracText at hc
+      split at hc
+      · simp at hc; omega
+      · simp only [List.mem_map] at hc
+        obtain ⟨x, hx, rfl⟩ := hc
+        have := List.all_eq_true.mp hall x hx
+        simp at this; omega
+    · omega
+    · exact formatInt_ascii e c hc
 
 end GoblVerif.C14nSrc
